@@ -1,0 +1,21 @@
+//go:build verif
+
+// Contracts for package azure, checked by /verif/govc (comment-only; not part of any normal build).
+
+package azure
+
+// ---- C03: a signature requested for key id K verifies with exactly the public key published for K: the signer
+// handed out for (name, version) shows the public key of that version AND signs with that version (an empty
+// version would mean "the latest one" to Azure: after a rotation in the vault that is another key) ----
+//@ func (keyVaultClient).*
+//@   trusted
+//@   benign
+//@ func (Keyvault).GetPrivateKey
+//@   prop C03
+//@   ensures [signer-bound-to-the-version-it-was-resolved-for] isNilIface(result.1) ==> typeOf(result.0) == *azureSigningKey
+//@        && result.0.(*azureSigningKey).keyName == keyName && result.0.(*azureSigningKey).keyVersion == version
+//@        && did(call (Keyvault).getPrivateKey #1) && arg(call (Keyvault).getPrivateKey #1, 2) == keyName && arg(call (Keyvault).getPrivateKey #1, 3) == version
+//@ func (azureSigningKey).Sign
+//@   prop C03
+//@   nullable opts
+//@   call (keyVaultClient).Sign #1 requires [signed-by-the-referenced-version] arg(2) == a.keyName && arg(3) == a.keyVersion
